@@ -1970,6 +1970,13 @@ func extractUnmarshal(m *model.Msg) (*decModel, error) {
 		rs, ok := rest[1].(*ast.ReturnStmt)
 		okEpi = okEpi && ok && len(rs.Results) == 2 && types.ExprString(rs.Results[1]) == "nil"
 	}
+	// the guard may be absent: every cursor update inside the loop keeps iNdEx <= l (BND.macro decides that arm by arm), so
+	// the loop `for iNdEx < l` can only be left with iNdEx == l and the test after it never fires
+	if !okEpi && len(rest) == 1 {
+		if rs, ok := rest[0].(*ast.ReturnStmt); ok && len(rs.Results) == 2 && types.ExprString(rs.Results[1]) == "nil" {
+			okEpi = true
+		}
+	}
 	if !okEpi {
 		dm.Problems = append(dm.Problems, "epilogue is not `if iNdEx > l { return …, io.ErrUnexpectedEOF }; return …, nil`")
 	}
